@@ -82,16 +82,16 @@ Qed.
 
 Section Proofs.
   Variable Ang : Type.
-  Variable ang_eqmod : Ang -> Ang -> bool.
-  (* round(p % 2pi, 7) == round(p % 2pi, 7): true of every float except nan *)
-  Hypothesis ang_eqmod_refl : forall a, ang_eqmod a a = true.
+  Variable ang_eqmod : bool -> Ang -> Ang -> bool.
+  (* round(p % period, 7) == round(p % period, 7): true of every float except nan *)
+  Hypothesis ang_eqmod_refl : forall l a, ang_eqmod l a a = true.
   Variable T : tables.
 
   Notation pgate := (pgate Ang).
   Notation param := (param Ang).
-  Notation gate_eq := (gate_eq Ang ang_eqmod).
-  Notation gates_eq := (gates_eq Ang ang_eqmod).
-  Notation circ_eq := (circ_eq Ang ang_eqmod).
+  Notation gate_eq := (gate_eq Ang ang_eqmod T).
+  Notation gates_eq := (gates_eq Ang ang_eqmod T).
+  Notation circ_eq := (circ_eq Ang ang_eqmod T).
   Notation gate_valid := (gate_valid Ang T).
   Notation circ_ok := (circ_ok Ang T).
   Notation clear_var := (clear_var Ang).
@@ -156,7 +156,7 @@ Section Proofs.
     destruct t as [|q [|q' r]]; simpl in L; try discriminate. exists q. reflexivity.
   Qed.
 
-  Lemma param_eq_refl (p : param) : param_eq Ang ang_eqmod p p = true.
+  Lemma param_eq_refl l (p : param) : param_eq Ang ang_eqmod l p p = true.
   Proof. destruct p; simpl; [reflexivity | apply ang_eqmod_refl | apply String.eqb_refl]. Qed.
 
   (* Gate.__eq__ between a gate with the flag cleared and the same gate under an equivalent name *)
